@@ -8,8 +8,78 @@ observed trace is replayed on the model inside coqc (Corr/C08.v).
 """
 import itertools
 import operator
+import os
 
+import vlib
 from vlib import cz, czl, clist, copt, cnat
+
+GEN = os.path.join(vlib.COQ, "Gen", "C08_gen.v")
+METHOD_OF = {"len": "HallOfFame.__len__", "getitem": "HallOfFame.__getitem__", "iter": "HallOfFame.__iter__",
+             "insert": "HallOfFame.insert", "remove": "HallOfFame.remove", "clear": "HallOfFame.clear",
+             "hof_update": "HallOfFame.update", "pf_update": "ParetoFront.update"}
+
+
+def regen(repo=None):
+    """Tie (T): regenerate coq/Gen/C08_gen.v from the working tree's deap/tools/support.py.
+    Returns (ok, message, status) -- status: method key -> None (translated) | Refuse (placeholder = the reference
+    transcription harness/c08_gen_ref.v.in); ok is False when nothing could be translated."""
+    import c08_py2coq
+    repo = repo or vlib.REPO
+    try:
+        txt, status = c08_py2coq.translate_repo(repo)
+    except Exception as e:  # noqa  (a translator crash is a refusal of everything: fail closed)
+        r = c08_py2coq.Refuse("Module", "translator error %s: %s" % (type(e).__name__, e))
+        txt, status = c08_py2coq.translate_source("\x00")     # all placeholders
+        status = {k: r for k in status}
+    with vlib.BuildLock():
+        os.makedirs(os.path.dirname(GEN), exist_ok=True)
+        old = open(GEN).read() if os.path.exists(GEN) else None
+        if old != txt:
+            with open(GEN, "w") as f:
+                f.write(txt)
+    done = [METHOD_OF[k] for k, v in status.items() if v is None]
+    refused = ["%s (%s)" % (METHOD_OF[k], v) for k, v in status.items() if v is not None]
+    msg = "regenerated: %s" % (", ".join(done) or "nothing")
+    if refused:
+        msg += "; translator refused: " + "; ".join(refused)
+    return bool(done), msg, status
+
+
+def tie_T(run):
+    """Regenerate, re-prove `regenerated = hand models` and the theorems on the regenerated definitions.
+    Returns (check function of the correspondence, requires, translated-but-not-proved flag)."""
+    ok, msg, status = regen()
+    refused = {k: v for k, v in status.items() if v is not None}
+    done = [METHOD_OF[k] for k, v in status.items() if v is None]
+    run.extra_cov["regenerated_functions"] = done
+    run.extra_cov["translator_refused"] = {METHOD_OF[k]: str(v) for k, v in refused.items()}
+    for k, v in refused.items():
+        run.notes.append("tie: correspondence-only (translator refused %s at line %s in %s: %s)"
+                         % (v.node, v.line, METHOD_OF[k], v.why))
+    if not ok:
+        run.extra_cov["tie"] = "correspondence-only (%s)" % msg
+        return "check", [], False
+    gen_ok = run.build_props(props="Props/C08_gen.v", extra=["Corr/C08_gen.v"])
+    if gen_ok:
+        run.notes.append("tie: regenerated (%s)" % ", ".join(done))
+        run.extra_cov["tie"] = ("translation (regenerated methods proved equal to both hand models, value level and heap "
+                                "level: %s) + correspondence%s"
+                                % (", ".join(done), "; correspondence-only for " + ", ".join(
+                                    sorted(METHOD_OF[k] for k in refused)) if refused else ""))
+        run.trusted.append("translator harness/c08_py2coq.py and its signature table (source text -> coq/Gen/C08_gen.v) with "
+                           "the run-time vocabulary coq/Model/C08_GenRt.v (worlds VW / HW, declared primitives bisect_right, "
+                           "self.similar, Fitness comparisons / dominates, deepcopy); the regenerated methods are proved equal "
+                           "to the hand models (Proofs/C08_gen_equiv.v) and evaluated against the implementation on every run")
+        if os.environ.get("C08_GEN_EVAL") == "0":      # (measurement only) prove the tie, evaluate the hand model alone
+            return "check", [], False
+        return "check_both", ["From DV Require Import Corr.C08_gen."], False
+    run.extra_cov["tie"] = "translator succeeded but the regenerated definitions are no longer (provably) the model"
+    try:        # keep the offending text for the replay
+        with open(os.path.join(run.rundir, "C08_gen.v.broken"), "w") as f:
+            f.write(open(GEN).read())
+    except OSError:
+        pass
+    return "check", [], True
 
 SIMKINDS = ["SimEq", "SimHead", "SimNever", "SimAlways", "SimLe"]
 EQUIV = ("SimEq", "SimHead", "SimAlways")        # reflexive + symmetric + transitive operators
@@ -650,10 +720,15 @@ def main(run):
     run.assumptions += ["m >= 1", "similar is reflexive and symmetric; for the hall of fame similar individuals have equal fitness (DESIGN Appendix B item 5)",
                         "all fitnesses of one history have the same number of objectives; values finite"]
     run.build_props()
+    # ---- tie (T): regenerate Gen/C08_gen.v from the working tree, re-prove `regenerated = model` and the theorems
+    gen_check, gen_reqs, gen_unproved = tie_T(run)
     rng = run.rng
     D = Driver(run)
     groups = {}
     parts = {}
+    gen_evaluated = [0]  # cases also replayed on the regenerated definitions
+    failed = []          # (term, case) of disagreeing cases, for the diagnosis model / regenerated
+    sample = []          # a sample of all cases, replayed on the regenerated definitions when they are not proved
 
     def flush(group):
         """Evaluate the accumulated cases of one group in Coq and drop them (keeps memory flat)."""
@@ -665,7 +740,19 @@ def main(run):
         name = group if k == 0 else "%s_p%d" % (group, k)
         # coqc parses big literals slowly: aim at ~120 KB of case text per shard so all cores are used
         avg = max(1, sum(len(t) for t in terms) // len(terms))
-        run.correspond(name, "C08", terms, cases, shard=max(20, min(400, 120000 // avg)))
+        # the regenerated definitions are evaluated next to the hand model (check_both) on every case of the quick
+        # tier; in the thorough tier the later parts of the large exhaustive groups use the hand model alone (the two
+        # are proved equal, evaluating both costs ~13 % more CPU on 300 000 further histories)
+        both = gen_check == "check_both" and not (run.thorough and group.startswith("exh") and k > 0)
+        bad = run.correspond(name, "C08", terms, cases, shard=max(20, min(400, 120000 // avg)),
+                             check=gen_check if both else "check", requires=gen_reqs if both else [])
+        gen_evaluated[0] += len(terms) if both else 0
+        for i in bad[:50]:
+            if len(failed) < 200:
+                failed.append((terms[i], cases[i]))
+        if gen_unproved and len(sample) < 3000:
+            step = max(1, len(terms) // 400)
+            sample.extend(zip(terms[::step], cases[::step]))
         if name != group:                      # merge the statistics under the group's name
             st = run.corr_groups.pop(name)
             tot = run.corr_groups.setdefault(group, {"cases": 0, "disagree": 0, "errors": 0})
@@ -736,9 +823,15 @@ def main(run):
                 add("exh_heap", hterm, case)
 
     # ---------------- random histories ----------------
+    PLANT = [None]
+    WIDE = [False]       # search beyond the sizes of the regular generators (only after the tie (T) broke)
+
     def rand_universe(nobj, simk, honest):
         k = rng.randint(2, 9)
         hi = rng.choice([1, 1, 2, 2, 3, 6])
+        if WIDE[0]:
+            k = rng.randint(8, 70)
+            hi = rng.choice([3, 6, 12, 40])
         uni = []
         heads = {}
         for j in range(k):
@@ -768,10 +861,14 @@ def main(run):
             elif api and r < 0.45:
                 script.append(("remove", rng.choice([-1, -1, 0, 0, 1, 2, -2, -3, 3, 5, -6, 7,
                                                      "first", "last", "neg_first", "past", "neg_past"])))
+                if WIDE[0] and rng.random() < 0.7:
+                    script[-1] = ("remove", rng.randint(-70, 70))
             elif (api and r < 0.5) or (not api and r < 0.03):
                 script.append(("clear",))
             else:
                 n = rng.choice([0, 1, 1, 2, 2, 3, 3, 4, maxbatch])
+                if WIDE[0]:
+                    n = rng.randint(0, maxbatch)
                 script.append(("update", [(rng.randrange(nslots), rng.randrange(nuni)) for _ in range(n)]))
         return script
 
@@ -784,6 +881,11 @@ def main(run):
         uni = rand_universe(nobj, simk, honest)
         m = rng.choice([1, 1, 2, 2, 3, 3, 4, 5, 6])
         nslots = rng.randint(1, 5)
+        if WIDE[0]:
+            m = rng.choice([rng.randint(1, 12), rng.randint(5, 64)])
+            nslots = rng.randint(1, 64)
+            script = rand_script(len(uni), nslots, rng.randint(1, 12), rng.choice([8, 20, 64]), api=rng.random() < 0.3)
+            return kind, m, simk, weights, uni, script
         script = rand_script(len(uni), nslots, rng.randint(1, 14), 7, api=False)
         return kind, m, simk, weights, uni, script
 
@@ -817,13 +919,34 @@ def main(run):
             if simk not in EQUIV:
                 simk = "SimEq"
             D.drive(kind, m, simk, weights, uni, script + rand_script(len(uni), 5, rng.randint(1, 20), 9, api=False), "search")
+        if not run_.oracle_viol and gen_unproved:
+            # a regenerated definition that is no longer the model may differ from it only beyond the sizes the
+            # regular generators reach (a threshold on maxsize, the archive size, the batch size, the index)
+            WIDE[0] = True
+            try:
+                t_end = time.time() + run_.scale(90, 600)
+                n = 0
+                while time.time() < t_end and not run_.oracle_viol:
+                    if n % 3 == 2 and PLANT[0] is not None:
+                        # a long antichain, then newcomers dominating many members at once
+                        kind, m, weights, uni, script = PLANT[0](14, 60)
+                        D.drive(kind, rng.randint(1, 64), "SimEq", weights, uni, script, "search_wide")
+                    else:
+                        kind, m, simk, weights, uni, script = rand_case()
+                        if simk not in EQUIV:
+                            simk = "SimEq"
+                        D.drive(kind, m, simk, weights, uni, script, "search_wide")
+                    n += 1
+                run_.notes.append("wide search (maxsize up to 64, batches up to 64, universes up to 70): %d histories" % n)
+            finally:
+                WIDE[0] = False
     run.search_fn = search
 
     # planted: an antichain is shown first, then individuals dominating several members at once
-    for it in range(run.scale(150, 3000)):
+    def plant_case(klo=2, khi=5):
         nobj = rng.choice([2, 2, 3, 4])
         weights = tuple(rng.choice([1, -1]) for _ in range(nobj))
-        k = rng.randint(2, 5)
+        k = rng.randint(klo, khi)
         uni = []
         for j in range(k):                        # antichain on the first two objectives (weighted)
             v = [0] * nobj
@@ -847,7 +970,12 @@ def main(run):
             script.append(("update", [(rng.randrange(5), rng.choice([rng.randrange(len(uni)), k + rng.randrange(len(uni) - k)]))
                                       for _ in range(rng.randint(0, 4))]))
         kind = "pf" if rng.random() < 0.7 else "hof"
-        term, hterm, case = D.drive(kind, rng.randint(1, 4), "SimEq", weights, uni, script, "plant")
+        return kind, rng.randint(1, 4), weights, uni, script
+    PLANT[0] = plant_case
+
+    for it in range(run.scale(150, 3000)):
+        kind, m, weights, uni, script = plant_case()
+        term, hterm, case = D.drive(kind, m, "SimEq", weights, uni, script, "plant")
         add("plant", term, case)
         add("plant_heap", hterm, case)
 
@@ -1038,3 +1166,38 @@ def main(run):
     for g in list(groups):
         flush(g)
     run.extra_cov["events_observed"] = dict(D.stats)
+    run.extra_cov["cases_also_evaluated_on_regenerated_definitions"] = gen_evaluated[0]
+
+    # ---- tie (T) diagnosis: which of the two executable descriptions disagrees with the implementation? -------
+    def replay(name, pairs, check, reqs):
+        """number of cases of `pairs` on which `check` fails (None: did not run); statistics are not kept"""
+        traces, ndis = run.traces, len(run.disagreements)
+        try:
+            avg = max(1, sum(len(t) for t, _ in pairs) // len(pairs))
+            bad = run.correspond(name, "C08", [t for t, _ in pairs], [c for _, c in pairs],
+                                 shard=max(20, min(400, 120000 // avg)), check=check, requires=reqs)
+            errs = run.corr_groups.get(name, {}).get("errors")
+            return None if errs else len(bad)
+        except Exception as e:  # noqa
+            run.notes.append("diagnosis step %s failed: %r" % (name, e))
+            return None
+        finally:
+            run.traces = traces
+            del run.disagreements[ndis:]
+            run.corr_groups.pop(name, None)
+
+    if gen_check == "check_both" and failed:
+        nm = replay("diagnosis_model", failed, "check", [])
+        ng = replay("diagnosis_regenerated", failed, "check_gen", gen_reqs)
+        run.notes.append("diagnosis: of %d disagreeing cases the hand model disagrees on %s, the regenerated definitions on %s"
+                         % (len(failed), nm, ng))
+    elif gen_unproved and sample:
+        # translated but not provably the model: do the regenerated definitions at least agree with the implementation?
+        ok_, out = vlib.make_targets(["Corr/C08_gen.vo"])
+        if ok_:
+            ng = replay("diagnosis_regenerated", sample, "check_gen", ["From DV Require Import Corr.C08_gen."])
+            run.notes.append("diagnosis: the regenerated definitions (not provably equal to the model) disagree with the "
+                             "implementation on %s of %d sampled cases" % (ng, len(sample)))
+            run.extra_cov["regenerated_vs_implementation"] = {"sampled": len(sample), "disagree": ng}
+        else:
+            run.notes.append("diagnosis: the regenerated definitions do not compile: " + out[-400:])
